@@ -126,7 +126,8 @@ theorem ss2022_follows_address (cfg : Config) (hif : cfg.insertFirst = false) (h
 
 example : (run ⟨4, false, true, false, none, fun s => s⟩ State.init [.recv 9 1 (some ⟨.ip 5 53, 100⟩)]).table 9 = some 0 := by decide
 
-/-- **Delivery (partial).** The statement's "each datagram … leaves the relay towards T", as far as a safety model
+/-- **Delivery, one packet (kept from round 1; superseded by `accepted_packets_sent_or_documented_drop` below, which
+quantifies over every interleaving and the whole queue).** The statement's "each datagram … leaves the relay towards T", as far as a safety model
 can say it: the uplink is never stuck — the packet at the head of a started session's queue is put on the wire by
 that session's own steps (plus one resolver answer if its domain is not cached), and by `no_cross_session_send`
 towards the right destination. MISSING for the full statement: fairness of the Go scheduler and the kernel,
